@@ -62,13 +62,18 @@ namespace OpenMEEG {
         }
 
         maths::ifstream& operator>>(maths::ifstream& mio,LinOp& linop) {
+
+            //  The format selected by the manipulator applies to this operation only, whether or not the file can be opened.
+
+            const maths::MathsIO::IO dio = maths::MathsIO::GetCurrentFormat();
+
             std::ifstream is(mio.name().c_str(),std::ios::binary);
             if (is.fail())
                 throw BadFileOpening(mio.name(),BadFileOpening::READ);
 
             const std::string& buffer = Internal::ReadTag(is);
 
-            if (maths::MathsIO::IO dio = maths::MathsIO::GetCurrentFormat()) {
+            if (dio) {
                 if (dio->identify(buffer)) {
                     dio->setName(mio.name());
                     dio->read(is,linop);
@@ -90,11 +95,15 @@ namespace OpenMEEG {
 
         maths::ofstream& operator<<(maths::ofstream& mio,const LinOp& linop) {
 
+            //  The format selected by the manipulator applies to this operation only, whether or not the file can be opened.
+
+            const maths::MathsIO::IO dio = maths::MathsIO::GetCurrentFormat();
+
             std::ofstream os(mio.name().c_str(),std::ios::binary);
             if (os.fail())
                 throw BadFileOpening(mio.name(),BadFileOpening::WRITE);
 
-            if (maths::MathsIO::IO dio = maths::MathsIO::GetCurrentFormat()) {
+            if (dio) {
                 if (dio->known(linop)) {
                     dio->setName(mio.name());
                     dio->write(os,linop);
